@@ -302,6 +302,7 @@ func cmdCheck(args []string) {
 	obligations := map[string]int{}
 	reachedAll := map[string]int{}
 	var unconfirmed []string
+	failedObl := map[string]bool{}
 
 	for _, s := range specs {
 		if *only != "" && !strings.Contains(s.Name, *only) {
@@ -408,6 +409,7 @@ func cmdCheck(args []string) {
 		// counterexamples
 		for _, c := range hr.Cex {
 			key := c.Obligation + "#" + c.Class
+			failedObl[c.Obligation] = true
 			vars := filterModel(c.Model, c.Choices)
 			h := sha1.Sum([]byte(fmt.Sprint(key, vars)))
 			rp := filepath.Join(*verifDir, "replays", prop, fmt.Sprintf("%s-%x.json", sanitize(key), h[:4]))
@@ -507,7 +509,9 @@ func cmdCheck(args []string) {
 		"harnesses":                     harnessEv,
 		"functions_encoded_badwolf":     fnList,
 		"functions_encoded_counts":      byKind,
-		"obligations":                   obligations,
+		"obligations":                   len(obligations),
+		"discharged":                    len(obligations) - len(failedObl),
+		"obligation_evaluations":        obligations,
 		"reach_markers":                 reachedAll,
 		"inconclusive":                  inconclusive,
 		"unconfirmed_counterexamples":   unconfirmed,
